@@ -102,9 +102,9 @@ CATALOGUE = [
     ("take keepdims", "keeps", None, lambda c: c.a.take(c.lab(0), axis=0, keepdims=True)),
     ("getitem N-d mask", None, None, lambda c: c.a[c.arg(c.a.values > np.nanmean(c.a.values))]),
     ("compress", None, None, lambda c: c.a.compress(c.arg(c.a.values > np.nanmean(c.a.values)))),
-    ("take_axis label", "keeps", lambda c: [c.first], lambda c: c.a.take_axis(c.arg([c.lab(0), c.lab(0, 1)]), axis=0)),
-    ("take_axis position", "keeps", lambda c: [c.first], lambda c: c.a.take_axis(c.arg(np.array([c.k % c.a.shape[0], 0])), axis=0, indexing="position")),
-    ("compress_axis", "keeps", lambda c: [c.first], lambda c: c.a.compress_axis(c.arg(_mask_first(c)), axis=0)),
+    ("take_axis label", "keeps", lambda c: list(c.a.dims), lambda c: c.a.take_axis(c.arg([c.lab(0), c.lab(0, 1)]), axis=0)),
+    ("take_axis position", "keeps", lambda c: list(c.a.dims), lambda c: c.a.take_axis(c.arg(np.array([c.k % c.a.shape[0], 0])), axis=0, indexing="position")),
+    ("compress_axis", "keeps", lambda c: list(c.a.dims), lambda c: c.a.compress_axis(c.arg(_mask_first(c)), axis=0)),
     ("iter", None, None, lambda c: list(c.a.iter(0))),
     ("to_list", None, None, lambda c: c.a.to_list()),
     # ---- assignment on a copy -----------------------------------------------------------------------------------
@@ -204,21 +204,21 @@ CATALOGUE = [
     ("flattened repr", None, None, lambda c: repr(c.f)),
     ("flattened + scalar", "drops", None, lambda c: c.f + 1),
     # ---- reindexing / sorting / interpolation -------------------------------------------------------------------
-    ("reindex_axis", "keeps", lambda c: [c.first], lambda c: c.a.reindex_axis([c.lab(0), c.lab(0, 1)], axis=0)),
-    ("reindex_axis missing", "keeps", lambda c: [c.first], lambda c: c.a.reindex_axis(list(c.a.labels[0][:1]) + [99], axis=0)),
-    ("reindex_axis method", "keeps", lambda c: [c.first], lambda c: c.a.reindex_axis([float(c.a.labels[0][0]) + 0.1], axis=0, method="left")),
-    ("reindex_axis Axis", "keeps", lambda c: [c.first], lambda c: c.a.reindex_axis(c.arg(c.da.Axis(c.a.labels[0][::-1].copy(), c.first)))),
-    ("reindex_axis Axis missing", "keeps", lambda c: [c.first],
+    ("reindex_axis", "keeps", lambda c: list(c.a.dims), lambda c: c.a.reindex_axis([c.lab(0), c.lab(0, 1)], axis=0)),
+    ("reindex_axis missing", "keeps", lambda c: list(c.a.dims), lambda c: c.a.reindex_axis(list(c.a.labels[0][:1]) + [99], axis=0)),
+    ("reindex_axis method", "keeps", lambda c: list(c.a.dims), lambda c: c.a.reindex_axis([float(c.a.labels[0][0]) + 0.1], axis=0, method="left")),
+    ("reindex_axis Axis", "keeps", lambda c: list(c.a.dims), lambda c: c.a.reindex_axis(c.arg(c.da.Axis(c.a.labels[0][::-1].copy(), c.first)))),
+    ("reindex_axis Axis missing", "keeps", lambda c: list(c.a.dims),
      lambda c: c.a.reindex_axis(c.arg(c.da.Axis(np.concatenate([c.a.labels[0][:1], [c.a.labels[0].max() + 7]]), c.first)))),
-    ("reindex_axis array missing", "keeps", lambda c: [c.first],
+    ("reindex_axis array missing", "keeps", lambda c: list(c.a.dims),
      lambda c: c.a.reindex_axis(c.arg(np.concatenate([[c.a.labels[0].min() - 3], c.a.labels[0][::-1]])), axis=c.first)),
-    ("reindex_like", "keeps", None, lambda c: c.a.reindex_like(c.b)),
-    ("sort_axis", "keeps", None, lambda c: c.a.sort_axis(c.axk())),
-    ("sort_axis key", "keeps", None, lambda c: c.a.sort_axis(0, key=lambda x: -x)),
-    ("dropna", "keeps", None, lambda c: c.a.dropna(axis=c.axk())),
-    ("dropna minvalid", "keeps", None, lambda c: c.a.dropna(axis=c.axk(), minvalid=1)),
-    ("interp_axis", "keeps", None, lambda c: c.a.interp_axis(c.arg(np.array(_interp_pts(c))), axis=0)),
-    ("interp_axis fills", "keeps", None, lambda c: c.a.interp_axis(_interp_pts(c), axis=c.first, left=-1.0, right=-2.0)),
+    ("reindex_like", "keeps", lambda c: list(c.a.dims), lambda c: c.a.reindex_like(c.b)),
+    ("sort_axis", "keeps", lambda c: list(c.a.dims), lambda c: c.a.sort_axis(c.axk())),
+    ("sort_axis key", "keeps", lambda c: list(c.a.dims), lambda c: c.a.sort_axis(0, key=lambda x: -x)),
+    ("dropna", "keeps", lambda c: list(c.a.dims), lambda c: c.a.dropna(axis=c.axk())),
+    ("dropna minvalid", "keeps", lambda c: list(c.a.dims), lambda c: c.a.dropna(axis=c.axk(), minvalid=1)),
+    ("interp_axis", "keeps", lambda c: list(c.a.dims[1:]), lambda c: c.a.interp_axis(c.arg(np.array(_interp_pts(c))), axis=0)),
+    ("interp_axis fills", "keeps", lambda c: list(c.a.dims[1:]), lambda c: c.a.interp_axis(_interp_pts(c), axis=c.first, left=-1.0, right=-2.0)),
     ("interp_like", "keeps", None, lambda c: c.a.interp_like(c.arg(c.da.Axes([c.da.Axis(np.array(_interp_pts(c)), c.first)])))),
     # ---- aligning and joining -----------------------------------------------------------------------------------
     ("align", None, None, lambda c: c.da.align([c.a, c.b])),
@@ -243,6 +243,9 @@ CATALOGUE = [
     ("to_jsondict", None, None, lambda c: c.a.to_jsondict()),
     ("copy", None, None, lambda c: c.a.copy()),
     ("DimArray(a)", None, None, lambda c: c.da.DimArray(c.a)),
+    ("DimArray(a, key=value)", None, None, lambda c: c.da.DimArray(c.a, extra_key="K", units="other")),
+    ("array(a, key=value)", None, None, lambda c: c.da.array(c.a, extra_key2=1)),
+    ("DimArray(a, copy=True)", None, None, lambda c: c.da.DimArray(c.a, copy=True)),
     ("to_dataset", None, None, lambda c: c.a.to_dataset(axis=0)),
     ("to_MaskedArray", None, None, lambda c: c.a.to_MaskedArray()),
     ("np.asarray", None, None, lambda c: np.asarray(c.a)),
